@@ -149,6 +149,49 @@ theorem g2_negate_relaxed_superset (fs fr maxCost : Nat) (args : Tree) (r : OpRe
   · simp only [hfs, Bool.not_true] at h
     exact h
 
+/-! ### cost formulas and validation order (closed forms on well-formed argument lists) -/
+
+/-- `pubkey_for_exp` on one atom `n`: cost = PUBKEY_BASE_COST + len(n)·PUBKEY_COST_PER_BYTE + 48·MALLOC,
+value = (n mod r)·G1 compressed, freshly allocated — whenever the budget allows it. -/
+theorem pubkey_for_exp_spec (flags maxCost : Nat) (n : Bytes) (term : Bytes)
+    (hb : Gen.Crypto.pubkeyBaseCost + n.length * Gen.Crypto.pubkeyCostPerByte ≤ maxCost) :
+    opPubkeyForExp flags maxCost (.pair (.atom n) (.atom term)) =
+      .ok ⟨Gen.Crypto.pubkeyBaseCost + n.length * Gen.Crypto.pubkeyCostPerByte + 48 * Gen.Crypto.mallocCostPerByte,
+           .atom (g1Encode (g1Mul (modGroupOrder (intOfBytes n)).toNat g1Gen)), true⟩ := by
+  unfold opPubkeyForExp getArgs
+  simp only [matchArgs, Option.map, bind, Except.bind, intAtom, checkCost]
+  have : ¬ (Gen.Crypto.pubkeyBaseCost + n.length * Gen.Crypto.pubkeyCostPerByte > maxCost) := by omega
+  simp only [this, if_false, pure, Except.pure, pubkeyForExp, newG1]
+
+/-- over budget ⇒ CostExceeded, before any group operation -/
+theorem pubkey_for_exp_cost_exceeded (flags maxCost : Nat) (n : Bytes) (term : Bytes)
+    (hb : maxCost < Gen.Crypto.pubkeyBaseCost + n.length * Gen.Crypto.pubkeyCostPerByte) :
+    opPubkeyForExp flags maxCost (.pair (.atom n) (.atom term)) = .error .CostExceeded := by
+  unfold opPubkeyForExp getArgs
+  simp only [matchArgs, Option.map, bind, Except.bind, intAtom, checkCost]
+  have : (Gen.Crypto.pubkeyBaseCost + n.length * Gen.Crypto.pubkeyCostPerByte > maxCost) := by omega
+  simp only [this, if_true]
+
+/-- `g1_negate` in relaxed mode on any 48-byte atom: fixed cost, bit 5 flipped (or the argument
+itself for the encoding of infinity) — no validation at all. -/
+theorem g1_negate_relaxed_spec (flags maxCost : Nat) (blob term : Bytes) (hl : blob.length = 48)
+    (hr : hasFlag flags Gen.Crypto.flagRelaxedBls = true) :
+    opBlsG1Negate flags maxCost (.pair (.atom blob) (.atom term)) =
+      .ok (if isCompressedInfinity blob
+        then ⟨Gen.Crypto.blsG1NegateBaseCost + 48 * Gen.Crypto.mallocCostPerByte, .atom blob, false⟩
+        else ⟨Gen.Crypto.blsG1NegateBaseCost + 48 * Gen.Crypto.mallocCostPerByte, .atom (flipSignBit blob), true⟩) := by
+  unfold opBlsG1Negate getArgs
+  simp only [matchArgs, Option.map, bind, Except.bind, atomOf, hr, Bool.not_true, hl, ne_eq,
+    not_true_eq_false, if_false, pure, Except.pure, Bool.false_eq_true]
+  cases hi : isCompressedInfinity blob
+  · have : (flipSignBit blob).length = 48 := by
+      cases blob with
+      | nil => simp at hl
+      | cons x xs => simpa [flipSignBit] using hl
+    simp [newAtomAndCost, this]
+  · simp
+
+
 /-! ### the one non-standard rule of `chia_bls::G1Element::from_bytes` -/
 
 /-- The encodings refused by the extra `chia_bls` rule (`chiaG1Quirk`: a finite-point encoding whose
